@@ -339,22 +339,38 @@ func (s *scope) getInstance(key instanceKey) (any, bool) {
 // setInstance caches an instance in this scope in a thread-safe manner.
 // It also tracks the instance if it implements the Disposable interface
 // for proper cleanup when the scope is closed.
-func (s *scope) setInstance(descriptor *Descriptor, key instanceKey, instance any) {
+func (s *scope) setInstance(descriptor *Descriptor, key instanceKey, instance any) error {
 	switch descriptor.Lifetime {
 	case Singleton:
 		s.rootProvider.setSingleton(key, instance)
-	case Scoped:
-		s.instancesMu.Lock()
-		s.instances[key] = instance
-		s.instancesMu.Unlock()
-		fallthrough
-	case Transient:
-		if d, ok := instance.(Disposable); ok {
-			s.disposablesMu.Lock()
-			s.disposables = append(s.disposables, d)
+	case Scoped, Transient:
+		// The disposed flag is read under the disposal lock: either Close has not
+		// drained the list yet and will dispose this instance, or the scope is
+		// already closed and the instance is disposed here.
+		d, disposable := instance.(Disposable)
+		s.disposablesMu.Lock()
+		if atomic.LoadInt32(&s.disposed) != 0 {
 			s.disposablesMu.Unlock()
+			if disposable {
+				_ = d.Close()
+			}
+			return ErrScopeDisposed
+		}
+		if disposable {
+			s.disposables = append(s.disposables, d)
+		}
+		s.disposablesMu.Unlock()
+
+		if descriptor.Lifetime == Scoped {
+			s.instancesMu.Lock()
+			if s.instances != nil {
+				s.instances[key] = instance
+			}
+			s.instancesMu.Unlock()
 		}
 	}
+
+	return nil
 }
 
 var (
@@ -466,7 +482,9 @@ func (s *scope) createInstance(descriptor *Descriptor) (any, error) {
 			Group: descriptor.Group,
 		}
 
-		s.setInstance(descriptor, key, instance)
+		if err := s.setInstance(descriptor, key, instance); err != nil {
+			return nil, err
+		}
 		return instance, nil
 	}
 
@@ -518,7 +536,9 @@ func (s *scope) createInstance(descriptor *Descriptor) (any, error) {
 			Key:   descriptor.Key,
 			Group: descriptor.Group,
 		}
-		s.setInstance(descriptor, key, emptyStruct)
+		if err := s.setInstance(descriptor, key, emptyStruct); err != nil {
+			return nil, err
+		}
 		return emptyStruct, nil
 	}
 
@@ -529,6 +549,9 @@ func (s *scope) createInstance(descriptor *Descriptor) (any, error) {
 			Cause:       fmt.Errorf("constructor returned no values"),
 		}
 	}
+
+	// First error reported by setInstance for one of several outputs
+	var setErr error
 
 	// Handle result objects (Out structs)
 	if info.IsResultObject {
@@ -572,7 +595,14 @@ func (s *scope) createInstance(descriptor *Descriptor) (any, error) {
 				Group: reg.Group,
 			}
 
-			s.setInstance(regDescriptor, key, value)
+			// Keep going on error so that every output is handed over (and disposed)
+			if err := s.setInstance(regDescriptor, key, value); err != nil && setErr == nil {
+				setErr = err
+			}
+		}
+
+		if setErr != nil {
+			return nil, setErr
 		}
 
 		if primaryService == nil {
@@ -610,7 +640,14 @@ func (s *scope) createInstance(descriptor *Descriptor) (any, error) {
 				Group: serviceDescriptor.Group,
 			}
 
-			s.setInstance(serviceDescriptor, key, value)
+			// Keep going on error so that every output is handed over (and disposed)
+			if err := s.setInstance(serviceDescriptor, key, value); err != nil && setErr == nil {
+				setErr = err
+			}
+		}
+
+		if setErr != nil {
+			return nil, setErr
 		}
 
 		return results[descriptor.MultiReturnIndex].Interface(), nil
@@ -630,7 +667,9 @@ func (s *scope) createInstance(descriptor *Descriptor) (any, error) {
 		Group: descriptor.Group,
 	}
 
-	s.setInstance(descriptor, key, instance)
+	if err := s.setInstance(descriptor, key, instance); err != nil {
+		return nil, err
+	}
 	return instance, nil
 }
 
